@@ -277,7 +277,7 @@ class Arm(Robot):
         theta = fsr.angleMod(theta)
         if success:
             self._theta = theta.copy()
-            self._end_effector_pos_global = goal_position
+            self._end_effector_pos_global = goal_position.copy()
         else:
             if check:
                 i = 0
@@ -292,7 +292,7 @@ class Arm(Robot):
                     i = i + 1
                 if success:
                     self._theta = theta.copy()
-                    self._end_effector_pos_global = goal_position
+                    self._end_effector_pos_global = goal_position.copy()
         return theta, success
 
     def constrainedIK(self, goal_position : tm, theta_init : 'np.ndarray[float]' = None,
